@@ -97,6 +97,9 @@ func runC20(c *Ctx) {
 	catalogue := []req{
 		{"transcode-post", "POST", "/c13/unary/n1", "", map[string]string{"Content-Type": "application/json"}, []byte(`{"data":"cGF5"}`), false},
 		{"transcode-post-query", "POST", "/c13/unary/n2", "i32=7", map[string]string{"Content-Type": "application/json"}, []byte(`{}`), false},
+		// the query string is the client's, character for character: ';' is not a separator the server may rewrite
+		{"transcode-query-semicolon", "POST", "/c13/unary/n3", "data=QUJD;i32=7", map[string]string{"Content-Type": "application/json"}, []byte(`{}`), false},
+		{"transcode-query-semicolon-2", "POST", "/c13/unary/n4", "i32=5&data=QUJD;data=QUJE", map[string]string{"Content-Type": "application/json"}, []byte(`{}`), false},
 		{"transcode-stream", "POST", "/c13/down", "", map[string]string{"Content-Type": "application/json"}, []byte(`{"i32":2,"data":"QQ=="}`), false},
 		{"implicit-route", "POST", "/" + fxPkg + ".Svc/Unary", "", map[string]string{"Content-Type": "application/json"}, []byte(`{"name":"x"}`), false},
 		{"twirp-style-proto", "POST", "/" + fxPkg + ".Svc/Unary", "", map[string]string{"Content-Type": "application/protobuf"}, enc, false},
